@@ -212,6 +212,12 @@ def real_jobs(ctx, thorough):
                           # write of an index node during Close (seeded change C13-m3: the error of a non-last child
                           # branch node write was overwritten by the next child's nil)
                           faults=(-1 if pg == 64 else 0)))
+    # the 8-bit CLen field (units of 1024 bytes, 0 = "up to CPtrMax") shares its index word with the STag byte: primary
+    # sizes on both sides of 1 KiB, 255 KiB and 256 KiB, in chunks that use shared resources (the model codec's
+    # compressed size is dchunk + 1, + 4 with a resource) (seeded change C13-m6: CLen 256 spilled into the STag)
+    for dc in ([1019, 1020, 261115, 261116, 261600, 262138, 262139] if thorough else [1019, 261116, 262138, 262139]):
+        jobs.append(J(name="model-short/D%d/res2/clen-window" % dc, codec="model", kind="stored", guise="short", dchunk=dc, res=2,
+                      len=4 * dc + 7, zero=0.4, maxwrite=70000, faults=0))
     jobs.append(J(name="zlib/D16/2-level/end/page128", codec="zlib", dchunk=16, len=16 * 300 + 5, zero=0.3, page=128, faults=2))
     if thorough:
         for i in range(8):
